@@ -100,13 +100,31 @@ def run(ctx):
     eo = scenario_edges(g, rd.node, value_atom(rd.node, subj, 'loaded', sets), resolve=False)
     if not any(x.id in g.reach([g.entry.id], edge_ok=eo) for x in rets): ok = False; leak.append('loaded object cannot be pickled')
     ctx.ob('C31-PICKLE.only-stored-state-is-pickled', rd, rd.node, ok, '' if ok else 'Entity.__reduce__ does not refuse deleted/created/modified objects before building the state: %s' % ', '.join(leak))
-    rets = [norm(s.value) for s in walk_no_nested(rd.node) if isinstance(s, ast.Return)]
-    ok = rets == ['(unpickle_entity, (d,))']
-    ctx.ob('C31-PICKLE.reduce-targets-unpickle_entity', rd, rd.node, ok, '' if ok else '__reduce__ returns %s' % rets)
-    ue = repo.fn(CORE, 'unpickle_entity')
-    cs = [norm(c.func) for c in calls_in(ue.node)]
-    ok = 'entity._get_from_identity_map_' in cs and 'obj._db_set_' in cs
-    ctx.ob('C31-PICKLE.unpickle-goes-through-identity-map', ue, ue.node, ok, '' if ok else 'unpickle_entity bypasses the identity map / _db_set_')
+    # what __reduce__ hands to pickle: (callable, args[, state]).  The callable is a module-level function that goes through the identity map; the
+    # attribute values are applied with _db_set_ (by the callable, or by __setstate__ when the three-element form is used)
+    rvals = [s_.value for s_ in walk_no_nested(rd.node) if isinstance(s_, ast.Return) and s_.value is not None]
+    ctx.need(rvals and all(isinstance(v, ast.Tuple) and len(v.elts) >= 2 and isinstance(v.elts[0], ast.Name) for v in rvals), 'C31-PICKLE: Entity.__reduce__ does not return (callable, args, ...)')
+    for v in rvals:
+        ue = repo.fn_opt(CORE, v.elts[0].id)
+        cs = [c.func.attr for c in calls_in(ue.node) if isinstance(c.func, ast.Attribute)] if ue is not None else []
+        ss = repo.fn_opt(CORE, 'Entity.__setstate__')
+        cs_state = [c.func.attr for c in calls_in(ss.node) if isinstance(c.func, ast.Attribute)] if ss is not None and len(v.elts) >= 3 else []
+        ok = ue is not None and ue.cls is None
+        ctx.ob('C31-PICKLE.reduce-targets-a-module-level-function', rd, v, ok, '' if ok else '__reduce__ returns %s: pickle cannot import the callable by name' % norm(v)[:60], node=v)
+        ok = '_get_from_identity_map_' in cs and '_db_set_' in cs + cs_state
+        ctx.ob('C31-PICKLE.unpickle-goes-through-identity-map', ue or rd, (ue or rd).node, ok, '' if ok else 'unpickling bypasses the identity map / _db_set_')
+        # pickle memoises an object only after the *arguments* of its reduce value have been written.  Related objects placed in the arguments are
+        # therefore pickled before the object itself is known: two objects that refer to each other (both sides of a one-to-one, two entities
+        # with references to each other) recurse until RecursionError.  Cycle-safe forms: references travel in the third element (state), or as keys.
+        args_txt = norm(v.elts[1])
+        arg_names = {a_.id for a_ in ast.walk(v.elts[1]) if isinstance(a_, ast.Name)}
+        fills = [s_ for s_ in ast.walk(rd.node) if isinstance(s_, ast.Assign) and any(isinstance(t, ast.Subscript) and isinstance(t.value, ast.Name) and t.value.id in arg_names for t in s_.targets)]
+        from_vals = [s_ for s_ in fills if any(isinstance(l, (ast.For,)) and '_vals_' in norm(l.iter) and s_ in list(ast.walk(l)) for l in ast.walk(rd.node))]
+        guarded = [s_ for s_ in from_vals if any(isinstance(t_, ast.If) and s_ in list(ast.walk(t_)) and ('reverse' in norm(t_.test) or 'py_type' in norm(t_.test) or 'is_relation' in norm(t_.test)) for t_ in ast.walk(rd.node))]
+        ok = not from_vals or len(guarded) == len(from_vals)
+        ctx.ob('C31-CYCLE.related-objects-are-not-pickled-inside-the-reduce-arguments', rd, v, ok,
+               '' if ok else 'Entity.__reduce__ puts every loaded attribute value, related objects included, into the arguments `%s` of its reduce value: pickle writes those before it '
+               'memoises the object, so loaded objects that refer to each other (both sides of a one-to-one) cannot be pickled -- RecursionError' % args_txt[:40], node=v)
     # ---------------------------------------------------------------- MIX
     pu = repo.fn(SER, 'Bag._put_object'); g = cg.cfg(pu)
     for want in ('bag.database.entities.get(entity.__name__) is not entity', 'obj._session_cache_ is not cache'):
@@ -181,6 +199,9 @@ MUTANTS = [
     dict(id='C31-m2', file='pony/orm/serialization.py', fn='Bag._reduce_composite_pk', old=".replace('*', '**').replace(',', '*,')", new=".replace(',', '*,')", expect='C31-ESC'),
     dict(id='C31-m3', file='pony/orm/serialization.py', fn='Bag.to_dict', old='    def to_dict(bag):\n        bag.dicts.clear()\n', new='    def to_dict(bag):\n', expect='C31-FRESH.scratch-table-cleared-before'),
     dict(id='C31-m4', file='pony/orm/core.py', fn='Entity.to_dict', old='        if cache is not None and cache.is_alive and cache.modified: cache.flush()\n', new='', expect='C31-FLUSH'),
+    dict(id='C31-cyc1', file='pony/orm/core.py', fn='Entity.__reduce__', old="        return unpickle_entity_by_pk, (obj.__class__, obj._pkval_), state", new="        state['__class__'] = obj.__class__\n        return unpickle_entity, (state,)", expect='C31-CYCLE'),
+    dict(id='C31-cyc2', file='pony/orm/core.py', fn='Entity.__setstate__', old="        obj._db_set_({obj._adict_[attrname]: val for attrname, val in state.items()}, unpickling=True)", new="        pass", expect='C31-PICKLE.unpickle-goes-through'),
+    dict(id='C31-cyc3', file='pony/orm/core.py', fn='unpickle_entity_by_pk', old="    return entity._get_from_identity_map_(pkval, 'loaded')", new="    obj = object.__new__(entity); obj._pkval_ = pkval; obj._status_ = 'loaded'\n    return obj", expect='C31-PICKLE.unpickle-goes-through'),
     dict(id='C31-m5', file='pony/orm/core.py', fn='Entity.__reduce__', old="        if obj._status_ in ('created', 'modified'): throw(", new="        if obj._status_ in ('created',): throw(", expect='C31-PICKLE'),
     dict(id='C31-m6', file='pony/orm/serialization.py', fn='Bag._put_object', old="        elif obj._session_cache_ is not cache: throw(TransactionError,\n            'An attempt to mix objects belonging to different transactions')\n", new='', expect='C31-MIX'),
     dict(id='C31-m7', file='pony/orm/serialization.py', fn='Bag._reduce_composite_pk', old="return ','.join(", new="return ';'.join(", expect='C31-ESC'),
